@@ -2102,7 +2102,7 @@ class ktensor:
         if (
             len(vector) > 0
             and isinstance(vector, np.ndarray)
-            and isinstance(vector.squeeze()[0], (int, float, np.number))
+            and isinstance(vector.reshape(-1)[0], (int, float, np.number))
         ):
             return self.ttv([vector], dims, exclude_dims)
 
